@@ -2,6 +2,9 @@ package props
 
 import (
 	"fmt"
+	"go.pennock.tech/tabular/texttable"
+	"go.pennock.tech/tabular/texttable/decoration"
+	"runtime"
 	"strings"
 
 	"go.pennock.tech/tabular"
@@ -29,6 +32,7 @@ func init() {
 		Phases: []Phase{
 			{Name: "random strings", N: Fixed(50000, 5000000), Run: c18Random},
 			{Name: "all strings of <=3 atoms over 12 hostile atoms", Exhaustive: true, N: Fixed(1+12+144+1728, 1+12+144+1728), Run: c18Exhaustive},
+			{Name: "a long-lived text wrapper renders a cell whose text is replaced 300 times by texts of the same byte length and other widths, a collection after each", N: Fixed(8, 64), Run: c18Recycle},
 			{Name: "very long lines (around 4 KiB and 64 KiB, and 200 kB) x 4 line shapes", Exhaustive: true, N: Fixed(len(c18LongLens)*4, len(c18LongLens)*4), Run: c18Long},
 			{Name: "every Unicode code point (1 112 064 scalar values in blocks of 1024): alone, after a letter, doubled, and inside a two-line text", Exhaustive: true, N: Fixed(0x110000/1024, 0x110000/1024), Run: c18AllRunes},
 		},
@@ -384,5 +388,88 @@ func c18Cells(c *Ctx, s string) {
 			c.Rec.Violate("Cell.Lines!=Lines(text)", fmt.Sprintf("cell of %s item with text %q: Lines()=%q differs from length.Lines(text)=%q", k.name, text, lines, length.Lines(text)),
 				map[string]interface{}{"item_kind": k.name, "text": gen.Q(text)})
 		}
+	}
+}
+
+// c18Recycle: one long-lived text wrapper, one cell showing a buffer whose text is replaced again and again by
+// texts of the SAME byte length and different display width, the cell updated and the table rendered each time,
+// with a forced garbage collection in between - so that a new text comes to lie where a dead one of the same
+// length lay.  Whatever a renderer remembers about a text it no longer holds is about another text by then.  Every
+// render must be a rectangle holding the current text.
+func c18Recycle(c *Ctx, i int, r *gen.R) {
+	n := []int{30, 24, 48, 12, 96, 30, 60, 16}[i%8] // byte length shared by all texts of the case
+	mk := func(kind, salt int) string {
+		var b strings.Builder
+		switch kind % 4 {
+		case 0: // ASCII: n bytes, n cells
+			for b.Len() < n {
+				b.WriteByte(byte('a' + (salt+b.Len())%26))
+			}
+		case 1: // CJK: 3 bytes, 2 cells each
+			for b.Len()+3 <= n {
+				b.WriteRune(rune(0x4e00 + (salt+b.Len())%200))
+			}
+		case 2: // two-byte letters: 2 bytes, 1 cell each
+			for b.Len()+2 <= n {
+				b.WriteRune(rune(0xe0 + (salt+b.Len())%20))
+			}
+		default: // combining marks: 2 bytes, 0 cells each, after one letter
+			b.WriteByte('e')
+			for b.Len()+2 <= n {
+				b.WriteRune(0x301)
+			}
+		}
+		for b.Len() < n {
+			b.WriteByte('.')
+		}
+		return b.String()
+	}
+	desc := map[string]interface{}{"byte_length_of_every_text": n}
+	c.Case = desc
+	c.Rec.Eval(gen.Hash64("recycle", fmt.Sprint(i)), true)
+	buf := &c18Buffer{}
+	t := tabular.New()
+	t.AddHeaders("h")
+	t.AddRowItems(buf)
+	tt := texttable.Wrap(t).SetDecoration(decoration.ASCIIBoxSimple())
+	cell, err := t.CellAt(tabular.CellLocation{Row: 1, Column: 1})
+	if err != nil {
+		c.Rec.Violate("cell-unreachable", fmt.Sprint(err), desc)
+		return
+	}
+	rounds := 300
+	for k := 0; k < rounds; k++ {
+		text := mk(r.Intn(4), k)
+		buf.b = []byte(text)
+		cell.Update()
+		out, rerr := tt.Render()
+		c.Rec.Count("renders_after_a_same-length_replacement_and_a_collection", 1)
+		if rerr != nil {
+			c.Rec.Violate("recycle:render-refused", fmt.Sprint(rerr), desc)
+			return
+		}
+		lines := strings.Split(strings.TrimSuffix(out, "\n"), "\n")
+		w := length.StringCells(lines[0])
+		found := false
+		for _, l := range lines {
+			if length.StringCells(l) != w {
+				desc["round"], desc["text"] = k, gen.Q(text)
+				c.Rec.Violate("recycle:not-a-rectangle", fmt.Sprintf("round %d: after the buffer's text was replaced by %q (%d bytes, %d cells), Update and render through the long-lived wrapper, line %q is %d cells wide, the top rule %d; output:\n%s", k, text, len(text), length.StringCells(text), l, length.StringCells(l), w, out), desc)
+				return
+			}
+			if strings.Contains(l, text) {
+				found = true
+			}
+		}
+		if !found {
+			c.Rec.Violate("recycle:text-missing", fmt.Sprintf("round %d: the rendered table does not show the current text %q:\n%s", k, text, out), desc)
+			return
+		}
+		if want := length.StringCells(text) + 4; w != want {
+			c.Rec.Violate("recycle:column-width", fmt.Sprintf("round %d: text %q is %d cells wide, the table %d (expected %d)", k, text, length.StringCells(text), w, want), desc)
+			return
+		}
+		buf.b = nil
+		runtime.GC()
 	}
 }
